@@ -9,6 +9,11 @@ from .storage import key_norm
 from .values import D, compare, sort_key, to_num, truth
 
 
+class ColName(str):
+    """result column name that remembers its table (pymysql's DictCursor prefixes duplicate names with it)."""
+    table = None
+
+
 def conjuncts(n, out=None):
     if out is None:
         out = []
@@ -302,7 +307,9 @@ class QueryMixin:
                         continue
                     found = True
                     for j, c in enumerate(src.cols):
-                        out_names.append(src.table.cols[j].name if src.table is not None else c)
+                        nm = ColName(src.table.cols[j].name if src.table is not None else c)
+                        nm.table = src.table.name if src.table is not None else src.alias
+                        out_names.append(nm)
 
                         def g(env, i=i, j=j):
                             r = env.rows[i]
